@@ -223,7 +223,7 @@ impl Prop for C15 {
         "C15"
     }
     fn rule(&self) -> String {
-        "case = ((piece family, operator) uniform over the 28 combinations whose trait bounds are satisfiable: {Segment*s, Segment*=s, (&mut Segment)*=s, Segment::translate, Piecewise*s, Piecewise*=s, -Piecewise, Piecewise::translate} x {PolyK, Log<PolyK>, IntOfLog<PolyK>, IntOfLogPoly4} minus MulAssign on IntOfLogPoly4 and Neg on Log; degree 0..=8; 0..=12 breakpoints from the lattice generator (Segment-level operators are applied to every segment of the list); pool of pairwise distinct finite numbers, piece j = pool rotated by 3j; scalar as in C14). Oracle: number of pieces, order and every end bit-identical; piece i of the result has exactly the numbers of the same operator applied to piece i alone (C14 pins what that is). Non-trivial: >=2 pieces.".into()
+        "case = ((piece family, operator) uniform over the 28 combinations whose trait bounds are satisfiable: {Segment*s, Segment*=s, (&mut Segment)*=s, Segment::translate, Piecewise*s, Piecewise*=s, -Piecewise, Piecewise::translate} x {PolyK, Log<PolyK>, IntOfLog<PolyK>, IntOfLogPoly4} minus MulAssign on IntOfLogPoly4 and Neg on Log; degree 0..=8; 0..=12 breakpoints from the lattice generator (Segment-level operators are applied to every segment of the list); pool of pairwise distinct finite numbers, piece j = pool rotated by 3j (1 case in 4: constant or period-3 pool, so that adjacent pieces are IDENTICAL functions - a step function with a plateau); scalar as in C14). Oracle: number of pieces, order and every end bit-identical; piece i of the result has exactly the numbers of the same operator applied to piece i alone (C14 pins what that is). Non-trivial: >=2 pieces.".into()
     }
     fn cases(&self, tier: Tier) -> u64 {
         tier.pick(1_000_000, 10_000_000)
@@ -231,11 +231,12 @@ impl Prop for C15 {
     fn strategy(&self, _tier: Tier) -> BoxedStrategy<Case> {
         let inst = instances();
         let scalars = prop_oneof![
-            2 => gen::from_table(&[0.0, -0.0, 1.0, -1.0, 2.0, -2.0, 0.5, 3.0, -7.0, 1e-300, -1e300, 5e-324, f64::MAX, 1.5]),
+            2 => gen::from_table(&[0.0, -0.0, 1.0, -1.0, 2.0, -2.0, 0.5, 3.0, -7.0, 1e-300, -1e300, 5e-324, f64::MAX, 1.5, 0.9999999999999999, 1.0000000000000002, -0.9999999999999999]),
             2 => gen::any_finite(),
         ];
         let ends = prop_oneof![1 => Just(Vec::new()), 8 => gen::ends(12, false)];
-        (0..inst.len(), 0u8..9, ends, gen::distinct_numbers(13), scalars)
+        let pools = prop_oneof![6 => gen::distinct_numbers(13), 1 => gen::any_finite().prop_map(|c| vec![c; 13]), 1 => gen::distinct_numbers(3).prop_map(|v| (0..13).map(|i| v[i % 3]).collect::<Vec<f64>>())];
+        (0..inst.len(), 0u8..9, ends, pools, scalars)
             .prop_map(move |(ii, deg, ends, pool, s)| {
                 let (fam, op) = inst[ii];
                 Case { fam, op, deg, ends: ends.into_iter().map(B).collect(), pool: pool.into_iter().map(B).collect(), s: B(s) }
